@@ -1,26 +1,424 @@
+// h_c26: correspondence harness for C26 (PromQL expressions print to text that parses back unchanged).
+//
+// Streams: (1) corpus of fixed reproducers and syntax variants, parsed by the real ParseExpr;
+// (2) generated well-typed real ASTs (parser-shaped); (3) mutated / random strings (totality).
+// Every accepted expression e goes through: real e.String() and parser.Prettify(e) -> real lexer
+// (items written as Gallina tokens) -> real ParseExpr of both texts -> String() of the re-parsed
+// expression. Coq compares the model's printer/parser with these (agree) and evaluates the
+// round-trip property on the implementation's own outputs (holds). Expressions outside the
+// modelled fragment (duration expressions) are judged on the Go side with a canonical dump.
 package main
 
 import (
+	"errors"
 	"fmt"
-	"os"
+	"math"
+	"sort"
+	"strconv"
+	"strings"
+	"time"
 
 	"github.com/prometheus/prometheus/promql/parser"
+
+	"verif/harness/internal/gallina"
+	"verif/harness/internal/gen"
 )
 
-func main() {
-	p := parser.NewParser(parser.Options{EnableExperimentalFunctions: true, ExperimentalDurationExpr: true, EnableExtendedRangeSelectors: true, EnableBinopFillModifiers: true})
-	for _, s := range os.Args[1:] {
-		e, err := p.ParseExpr(s)
-		if err != nil {
-			fmt.Printf("%q: ERR %v\n", s, err)
-			continue
-		}
-		s2 := e.String()
-		e2, err2 := p.ParseExpr(s2)
-		s3 := ""
-		if err2 == nil {
-			s3 = e2.String()
-		}
-		fmt.Printf("%q -> %q -> err=%v -> %q pretty=%q\n", s, s2, err2, s3, parser.Prettify(e))
+type desc struct {
+	Stream string `json:"stream"`
+	Opts   string `json:"opts"`
+	Source string `json:"source,omitempty"`
+	Text   string `json:"text"`
+	Shape  string `json:"shape"`
+	Re     string `json:"reparse,omitempty"`
+}
+
+func optsOf(i int) parser.Options {
+	return parser.Options{
+		EnableExperimentalFunctions:  i&1 != 0,
+		EnableExtendedRangeSelectors: i&2 != 0,
+		EnableBinopFillModifiers:     i&4 != 0,
+		ExperimentalDurationExpr:     i&8 != 0,
 	}
+}
+
+func optsName(o parser.Options) string {
+	b := func(x bool) string {
+		if x {
+			return "1"
+		}
+		return "0"
+	}
+	return "expfn=" + b(o.EnableExperimentalFunctions) + ",ext=" + b(o.EnableExtendedRangeSelectors) + ",fill=" + b(o.EnableBinopFillModifiers) + ",durexpr=" + b(o.ExperimentalDurationExpr)
+}
+
+func gopts(o parser.Options) string {
+	return fmt.Sprintf("(mkO %s %s %s)", gallina.Bool(o.EnableExperimentalFunctions), gallina.Bool(o.EnableExtendedRangeSelectors), gallina.Bool(o.EnableBinopFillModifiers))
+}
+
+// safeParse runs the real ParseExpr; internal = the totality part of the property is violated.
+func safeParse(o parser.Options, s string) (e parser.Expr, err error, internal string) {
+	defer func() {
+		if r := recover(); r != nil {
+			e, err, internal = nil, fmt.Errorf("panic: %v", r), fmt.Sprintf("panic escaped ParseExpr: %v", r)
+		}
+	}()
+	e, err = parser.NewParser(o).ParseExpr(s)
+	if err != nil {
+		var pe parser.ParseErrors
+		if !errors.As(err, &pe) {
+			internal = "non-ParseErrors error: " + err.Error()
+		} else if len(pe) == 0 {
+			internal = "empty ParseErrors"
+		}
+	} else if e == nil {
+		internal = "nil expression without error"
+	}
+	return
+}
+
+func safeString(f func() string) (s string, perr string) {
+	defer func() {
+		if r := recover(); r != nil {
+			perr = fmt.Sprint(r)
+		}
+	}()
+	return f(), ""
+}
+
+var badGroupLabel = map[string]bool{"without": true, "inf": true, "nan": true}
+
+// shapeOf names the known-finding shape an accepted expression falls into ("" = none).
+func shapeOf(e parser.Expr) string {
+	shape := ""
+	set := func(s string) {
+		if shape == "" {
+			shape = s
+		}
+	}
+	labelsBad := func(ls []string) {
+		for _, l := range ls {
+			if badGroupLabel[strings.ToLower(l)] {
+				set("grouping-label-keyword-unquoted")
+			}
+		}
+	}
+	subMs := func(d time.Duration) {
+		if d%time.Millisecond != 0 {
+			set("duration-sub-millisecond")
+		} else if p := abs64(int64(d)); durRead(p) != p {
+			set("duration-float-seconds-precision")
+		}
+	}
+	tsBad := func(ts *int64) {
+		if ts == nil {
+			return
+		}
+		if a := abs64(*ts); tsRead(a) != a {
+			set("at-timestamp-float-precision")
+		}
+	}
+	parser.Inspect(e, func(n parser.Node, _ []parser.Node) error {
+		switch x := n.(type) {
+		case *parser.AggregateExpr:
+			labelsBad(x.Grouping)
+		case *parser.BinaryExpr:
+			if m := x.VectorMatching; m != nil {
+				labelsBad(m.MatchingLabels)
+				labelsBad(m.Include)
+				if l, r := m.FillValues.LHS, m.FillValues.RHS; l != nil && r != nil && *l == 0 && *r == 0 && math.Signbit(*l) != math.Signbit(*r) {
+					set("fill-signed-zero")
+				}
+			}
+		case *parser.VectorSelector:
+			subMs(x.OriginalOffset)
+			tsBad(x.Timestamp)
+		case *parser.MatrixSelector:
+			subMs(x.Range)
+		case *parser.SubqueryExpr:
+			subMs(x.Range)
+			subMs(x.Step)
+			subMs(x.OriginalOffset)
+			tsBad(x.Timestamp)
+		case *parser.NumberLiteral:
+			if x.Duration {
+				a := math.Abs(x.Val)
+				if int64(math.Round(a*1e9))/1000000 != int64(math.Round(a*1000)) {
+					set("durlit-float-trunc")
+				}
+			}
+		}
+		return nil
+	})
+	return shape
+}
+
+func countNodes(e parser.Expr) int {
+	n := 0
+	parser.Inspect(e, func(x parser.Node, _ []parser.Node) error {
+		if x != nil {
+			n++
+		}
+		return nil
+	})
+	return n
+}
+
+func main() {
+	f := gallina.ParseFlags()
+	meta := gallina.NewMeta("C26", f.Seed, f.Tier)
+	meta.Rule = "corpus texts x 16 option sets; generated parser-shaped ASTs (depth <= 4) under a random option set; mutated corpus/printed texts and random token soups (totality). One evaluation = one accepted expression taken through String/Prettify/lexer/ParseExpr/String; non-trivial = the AST has >= 3 nodes; distinct by (options, printed text)"
+
+	// parser.Functions as the model's function table
+	var fnames []string
+	for n := range parser.Functions {
+		fnames = append(fnames, n)
+	}
+	sort.Strings(fnames)
+	var fts []string
+	vt := map[parser.ValueType]string{parser.ValueTypeScalar: "VScalar", parser.ValueTypeVector: "VVector", parser.ValueTypeMatrix: "VMatrix", parser.ValueTypeString: "VString", parser.ValueTypeNone: "VNone"}
+	for _, n := range fnames {
+		fn := parser.Functions[n]
+		fts = append(fts, fmt.Sprintf("(%s, (%s, %s))", gstr(n), vt[fn.ReturnType], gallina.Bool(fn.Experimental)))
+	}
+	pre := "From Coq Require Import List ZArith NArith.\nFrom Verif Require Import model.PromqlPrint model.PromqlParse corr.CorrC26.\nImport ListNotations.\nOpen Scope Z_scope.\n"
+	ftabDef := "Definition ftab0 : ftab := " + gallina.List(fts) + ".\n"
+	cf := &gallina.CaseFile{Dir: f.Out, Type: "case", PerShard: 0, Preamble: pre,
+		Footer: "Definition M := Eval vm_compute in mismatches ftab0 cases.\nDefinition H := Eval vm_compute in failing_holds cases.\nPrint M.\nPrint H."}
+
+	id := 0
+	inShard := 0
+	flush := func() {
+		cf.Preamble = pre + strings.Join(strDefs, "\n") + "\n" + ftabDef
+		cf.Flush()
+		inShard = 0
+	}
+	seen := map[string]bool{}
+	goviol := func(shape, what string, d desc) {
+		d.Shape = shape
+		meta.Case(id, d)
+		meta.GoViol = append(meta.GoViol, gallina.GoViolation{ID: strconv.Itoa(id), Shape: shape, What: what})
+		meta.Hit("go-violation:" + shape)
+		id++
+	}
+
+	// runCase takes one accepted expression through the real printer / lexer / parser.
+	runCase := func(e parser.Expr, o parser.Options, wf bool, stream, source string) {
+		d := desc{Stream: stream, Opts: optsName(o), Source: source}
+		text, perr := safeString(e.String)
+		if perr != "" {
+			goviol("printer-panic", "Expr.String panicked: "+perr, d)
+			return
+		}
+		d.Text = text
+		key := optsName(o) + "|" + text
+		if seen[key] {
+			meta.Hit("duplicate")
+			return
+		}
+		seen[key] = true
+		pretty, perr := safeString(func() string { return parser.Prettify(e) })
+		if perr != "" {
+			goviol("printer-panic", "Prettify panicked: "+perr, d)
+			return
+		}
+		re, rerr, internal := safeParse(o, text)
+		if internal != "" {
+			goviol("parser-internal-error", internal+" on printed text "+strconv.Quote(text), d)
+			return
+		}
+		pe, perr2, internal := safeParse(o, pretty)
+		if internal != "" {
+			goviol("parser-internal-error", internal+" on prettified text "+strconv.Quote(pretty), d)
+			return
+		}
+		text2 := ""
+		if rerr == nil {
+			text2, perr = safeString(re.String)
+			if perr != "" {
+				goviol("printer-panic", "String of re-parsed expression panicked: "+perr, d)
+				return
+			}
+			d.Re = text2
+		} else {
+			d.Re = "error: " + rerr.Error()
+		}
+		shape := shapeOf(e)
+		d.Shape = shape
+		if shape == "" {
+			d.Shape = "ok"
+		}
+		meta.Evaluations++
+		if countNodes(e) >= 3 {
+			meta.Nontrivial++
+		}
+		meta.Hit("stream:" + stream)
+		meta.Hit(fmt.Sprintf("top:%T", e))
+		if shape != "" {
+			meta.Hit("shape:" + shape)
+		}
+		if pretty != text {
+			meta.Hit("prettify-splits")
+		}
+
+		cur = newOracles()
+		term, why := project(e)
+		var reTerm, preTerm string
+		ok := why == ""
+		if ok {
+			reTerm, preTerm = "RErr", "RErr"
+			if rerr == nil {
+				t, w := project(re)
+				if w != "" {
+					ok, why = false, "reparsed:"+w
+				}
+				reTerm = "(ROther " + t + ")"
+				if t == term {
+					reTerm = "RSame"
+				}
+			}
+			if perr2 == nil {
+				t, w := project(pe)
+				if w != "" {
+					ok, why = false, "pretty-reparsed:"+w
+				}
+				preTerm = "(ROther " + t + ")"
+				if t == term {
+					preTerm = "RSame"
+				}
+			}
+		}
+		oc := cur.term()
+		cur = nil
+		toks, _, l1 := lexToks(text)
+		ptoks, l2 := "None", true
+		if pretty != text {
+			ptoks, _, l2 = lexToks(pretty)
+			ptoks = "(Some " + ptoks + ")"
+		}
+		toks2, l3 := "None", true
+		if rerr == nil && text2 != text {
+			toks2, _, l3 = lexToks(text2)
+			toks2 = "(Some " + toks2 + ")"
+		} else if rerr != nil {
+			toks2 = "(Some [])"
+		}
+		if ok && !(l1 && l2 && l3) {
+			ok, why = false, "lexer-error-on-printed-text"
+		}
+		if !ok {
+			// outside the modelled fragment: judge the property here
+			meta.Hit("outside-fragment:" + why)
+			var bad []string
+			if rerr != nil {
+				bad = append(bad, "printed text rejected: "+rerr.Error())
+			} else {
+				if dump(re) != dump(e) {
+					bad = append(bad, "re-parsed AST differs: "+dump(e)+" vs "+dump(re))
+				}
+				if text2 != text {
+					bad = append(bad, "re-printed text differs: "+strconv.Quote(text2))
+				}
+			}
+			if perr2 != nil {
+				bad = append(bad, "prettified text rejected: "+perr2.Error())
+			} else if dump(pe) != dump(e) {
+				bad = append(bad, "prettified text parses to a different AST")
+			}
+			if len(bad) > 0 {
+				sh := shape
+				if sh == "" {
+					sh = "roundtrip-outside-fragment"
+				}
+				goviol(sh, strconv.Quote(text)+": "+strings.Join(bad, "; "), d)
+				return
+			}
+			meta.Case(id, d)
+			id++
+			return
+		}
+		meta.Hit("in-fragment")
+		cf.Add(fmt.Sprintf("mkCase %s %s %s %s %s\n %s\n %s\n %s %s\n %s", gallina.Z(int64(id)), gopts(o), oc, gallina.Bool(wf && shape == ""), term, toks, ptoks, reTerm, preTerm, toks2))
+		if inShard++; inShard >= 500 {
+			flush()
+		}
+		meta.Case(id, d)
+		id++
+	}
+
+	// text: totality + (when accepted) the round trip
+	runText := func(s string, o parser.Options, stream string) {
+		e, err, internal := safeParse(o, s)
+		if internal != "" {
+			goviol("parser-internal-error", internal+" on "+strconv.Quote(s), desc{Stream: stream, Opts: optsName(o), Source: s, Text: s})
+			return
+		}
+		if err != nil {
+			meta.Hit("rejected:" + stream)
+			return
+		}
+		meta.Hit("accepted:" + stream)
+		runCase(e, o, false, stream, s)
+	}
+
+	// 1. corpus: known-finding reproducers first, then syntax variants, under every option set
+	findings := []string{
+		`sum by ("without") (foo)`, `sum by ("nan") (foo)`, `a + on("inf") b`, `a * on(b) group_left("Without") c`,
+		`foo offset 0.0001`, `foo[1.0000001]`, `foo[5m:1.0004]`, `foo offset -0.0001`, `foo[5m:] offset 1.0000001`,
+		`1s1ms`, `-1s3ms`, `foo > 1s5ms`, // fixed (08a939fd28): regression cases
+		`foo @ 9007199254740.993`, `foo @ 4503599627370.4`, `foo[5m:] @ -4503599627370.4`,
+		`a + fill_left(0) fill_right(-0) b`,
+	}
+	all := parser.Options{EnableExperimentalFunctions: true, EnableExtendedRangeSelectors: true, EnableBinopFillModifiers: true}
+	for _, s := range findings {
+		runText(s, all, "corpus-finding")
+	}
+	for _, s := range textCorpus {
+		for i := 0; i < 16; i++ {
+			if f.Tier == "quick" && i != 0 && i != 7 && i != 15 && i != int(f.Seed%16) {
+				continue
+			}
+			runText(s, optsOf(i), "corpus")
+		}
+	}
+
+	// 2. generated ASTs
+	n := f.Count(700, 60000)
+	var printed []string
+	for i := 0; i < n; i++ {
+		r := gen.Fork(f.Seed, i)
+		o := optsOf(r.Intn(16))
+		g := &genCtx{r: r, opts: o}
+		e := g.top(1 + r.Intn(4))
+		runCase(e, o, true, "generated-ast", "")
+		if len(printed) < 4000 {
+			if s, p := safeString(e.String); p == "" {
+				printed = append(printed, s)
+			}
+		}
+	}
+
+	// 3. totality: mutated corpus / printed texts and random token soups
+	m := f.Count(2500, 200000)
+	for i := 0; i < m; i++ {
+		r := gen.Fork(f.Seed, 1000000+i)
+		o := optsOf(r.Intn(16))
+		var s string
+		switch r.Intn(4) {
+		case 0:
+			s = randomString(r)
+		case 1:
+			s = mutate(r, gen.Pick(r, textCorpus))
+		default:
+			if len(printed) > 0 {
+				s = mutate(r, gen.Pick(r, printed))
+			} else {
+				s = mutate(r, gen.Pick(r, textCorpus))
+			}
+		}
+		runText(s, o, "mutated")
+	}
+
+	flush()
+	meta.Write(f.Out)
 }
